@@ -442,14 +442,48 @@ func (w *world) actCraft(t *rapid.T) {
 			txns = append(txns, txns[0])
 		case "double_spend_in_block":
 			// a second transaction spending the same first input with different outputs
+			// The shared input is any input of the first transaction and sits at a drawn position among 0-2 other inputs
+			// of the second one (shapes [X,A] / [A,Y], [A] / [B,A,C], ...): the duplicate-spend scan must compare all pairs
 			p := w.buildTxn(t, m, "valid")
 			if p != nil {
-				alt := p.txn
-				alt.In = []cipher.SHA256{txns[0].In[0]}
-				if ux, ok := m.Utxo[alt.In[0]]; ok {
-					alt.Out = []coin.TransactionOutput{{Address: userKeys[3].Addr, Coins: ux.Body.Coins, Hours: 0}}
-					signTxn(&alt, []gen.Key{keyByAddr[ux.Body.Address]})
-					txns = append(txns, alt)
+				shared := txns[0].In[rapid.IntRange(0, len(txns[0].In)-1).Draw(t, "sharedpos")]
+				var ins []cipher.SHA256
+				for _, in := range p.txn.In {
+					dup := in == shared
+					for _, x := range txns[0].In {
+						if x == in {
+							dup = true
+						}
+					}
+					if !dup && len(ins) < 2 {
+						ins = append(ins, in)
+					}
+				}
+				at := rapid.IntRange(0, len(ins)).Draw(t, "sharedat")
+				ins = append(ins[:at], append([]cipher.SHA256{shared}, ins[at:]...)...)
+				var alt coin.Transaction
+				var owners []gen.Key
+				total := new(big.Int)
+				ok := true
+				for _, in := range ins {
+					ux, found := m.Utxo[in]
+					k, owned := keyByAddr[ux.Body.Address]
+					if !found || !owned {
+						ok = false
+						break
+					}
+					owners = append(owners, k)
+					total.Add(total, bu(ux.Body.Coins))
+				}
+				if ok && total.IsUint64() {
+					alt.In = ins
+					alt.Out = []coin.TransactionOutput{{Address: userKeys[3].Addr, Coins: total.Uint64(), Hours: 0}}
+					signTxn(&alt, owners)
+					if rapid.Bool().Draw(t, "altfirst") {
+						txns = append([]coin.Transaction{alt}, txns...)
+					} else {
+						txns = append(txns, alt)
+					}
 				}
 			}
 		case "spend_created_in_block":
